@@ -1,6 +1,7 @@
 /-
   WF.lean — well-formed states (G4, part 1): every address stored in a value, a cell or a scope chain
-  denotes a heap cell of the expected kind.  Definitions, monotonicity under heap extension, and the
+  denotes a heap cell of the expected kind, and every object cell is strictly sorted by key (`Sorted`, C12).
+  Definitions, monotonicity under heap extension, and the
   preservation lemmas for the state-changing primitives (`alloc`, `set`, `print`, `scopeDeclare`,
   `scopeAssign`).
 
@@ -8,6 +9,7 @@
   relation `TagLe` ("every tagged address keeps its tag") and instantiated for `HeapGrows` and `Ext`.
 -/
 import SeedProofs.Lemmas.Instances
+import SeedProofs.Lemmas.C12Map
 namespace Seed
 
 /-! ### definitions -/
@@ -36,11 +38,12 @@ def ScOK (σ : State) (sc : List Addr) : Prop := sc ≠ [] ∧ ScTags σ sc
 
 def CellOK (σ : State) : Cell → Prop
   | .list xs => ListOK σ xs
-  | .obj m => ObjOK σ m
+  | .obj m => ObjOK σ m ∧ Sorted m
   | .func f => ScOK σ f.closure
   | .scope m => ScopeMapOK σ m
 
-/-- well-formed state: every cell only refers to cells of the right kind -/
+/-- well-formed state: every cell only refers to cells of the right kind, and every object cell is strictly
+    sorted by key (`Sorted`, the `BTreeMap` order) -/
 def WF (σ : State) : Prop := ∀ (a : Addr) (cell : Cell), σ.heap[a]? = some cell → CellOK σ cell
 
 /-- list cells keep their length -/
@@ -177,7 +180,7 @@ theorem ScOK.tagLe {σ σ' : State} {sc : List Addr} (h : ScOK σ sc) (ht : TagL
 theorem CellOK.tagLe {σ σ' : State} {c : Cell} (h : CellOK σ c) (ht : TagLe σ σ') : CellOK σ' c := by
   cases c with
   | list xs => exact ListOK.tagLe h ht
-  | obj m => exact ObjOK.tagLe h ht
+  | obj m => exact ⟨ObjOK.tagLe h.1 ht, h.2⟩
   | func f => exact ScOK.tagLe h ht
   | scope m => exact ScopeMapOK.tagLe h ht
 
@@ -212,7 +215,10 @@ theorem Ext.getList {σ σ' : State} {a : Addr} {xs : List SVal} (he : Ext σ σ
 theorem WF.list {σ : State} {a : Addr} {xs : List SVal} (h : WF σ) (hg : σ.getList a = some xs) : ListOK σ xs :=
   h a _ (getList_iff.1 hg)
 theorem WF.obj {σ : State} {a : Addr} {m : ObjMap} (h : WF σ) (hg : σ.getObj a = some m) : ObjOK σ m :=
-  h a _ (getObj_iff.1 hg)
+  (h a _ (getObj_iff.1 hg)).1
+/-- every object cell of a well-formed state is strictly sorted by key -/
+theorem WF.sorted {σ : State} {a : Addr} {m : ObjMap} (h : WF σ) (hg : σ.getObj a = some m) : Sorted m :=
+  (h a _ (getObj_iff.1 hg)).2
 theorem WF.func {σ : State} {a : Addr} {f : FuncRec} (h : WF σ) (hg : σ.getFunc a = some f) : ScOK σ f.closure :=
   h a _ (getFunc_iff.1 hg)
 theorem WF.scope {σ : State} {a : Addr} {m : ScopeMap} (h : WF σ) (hg : σ.getScope a = some m) : ScopeMapOK σ m :=
@@ -293,6 +299,14 @@ theorem objInsert_foldl_ok {σ : State} (m : ObjMap) {acc : ObjMap} (hm : ObjOK 
   | cons kv r ih =>
     simp only [List.foldl_cons]
     exact ih (fun x hx => hm x (List.mem_cons_of_mem _ hx)) (objInsert_ok ha (hm kv (List.mem_cons_self)))
+
+theorem objInsert_foldl_sorted (m : ObjMap) {acc : ObjMap} (ha : Sorted acc) :
+    Sorted (m.foldl (fun acc kv => objInsert kv.1 kv.2 acc) acc) := by
+  induction m generalizing acc with
+  | nil => exact ha
+  | cons kv r ih =>
+    simp only [List.foldl_cons]
+    exact ih (objInsert_sorted ha)
 
 theorem ObjOK.filter {σ : State} {m : ObjMap} (p : List Char × SVal → Bool) (hm : ObjOK σ m) : ObjOK σ (m.filter p) :=
   fun x hx => hm x (List.mem_filter.1 hx).1
@@ -430,8 +444,8 @@ theorem set_ext_scope {σ : State} {a : Addr} {m : ScopeMap} (m' : ScopeMap) (hg
 
 theorem set_list_wf {σ : State} {a : Addr} {xs ys : List SVal} (hw : WF σ) (hg : σ.getList a = some xs) (hy : ListOK σ ys) :
     WF (σ.set a (.list ys)) := set_wf (c := .list ys) hw (getList_tag hg) hy
-theorem set_obj_wf {σ : State} {a : Addr} {m m' : ObjMap} (hw : WF σ) (hg : σ.getObj a = some m) (hy : ObjOK σ m') :
-    WF (σ.set a (.obj m')) := set_wf (c := .obj m') hw (getObj_tag hg) hy
+theorem set_obj_wf {σ : State} {a : Addr} {m m' : ObjMap} (hw : WF σ) (hg : σ.getObj a = some m) (hy : ObjOK σ m')
+    (hs : Sorted m') : WF (σ.set a (.obj m')) := set_wf (c := .obj m') hw (getObj_tag hg) ⟨hy, hs⟩
 theorem set_scope_wf {σ : State} {a : Addr} {m m' : ScopeMap} (hw : WF σ) (hg : σ.getScope a = some m) (hy : ScopeMapOK σ m') :
     WF (σ.set a (.scope m')) := set_wf (c := .scope m') hw (getScope_tag hg) hy
 
